@@ -94,6 +94,10 @@ class Lin(Aff):
         if root is None:
             return TOP
         kind, l, path = root
+        if kind == "local":
+            m = re.match(r"^(?:&(?:mut )?)*\[[^;\]]+; (\d+)\]$", flow.strip_lifetimes(self.b.local_ty(l)))
+            if m:
+                return aff_const(int(m.group(1)))           # a fixed-size array: its length is in its type
         nm = self.b.local_name(l) or "_%d" % l
         ver = self.version(l, bb)
         return aff_sym("len(%s%s)#%s" % (nm, "".join("." + x for x in path), hash(ver) % 100000 if ver[1] else 0))
